@@ -19,7 +19,11 @@ def run_case(case):
 
     b = product.build_product(level=case["level"], images=case["images"], seed=case["seed"])
     res = {"case": case, "fps": [], "bad": [], "events": {}}
-    url = imgrun.put_on_fs(b, case["fs"], f"c06_{case['seed']}")
+    if case.get("trailing"):
+        # bytes after the last record of an image file (tape-block padding: zeros / blanks): never part of any request's result
+        for j, im in enumerate(b.images):
+            b.files[im["name"]] = bytes(b.files[im["name"]]) + (b"\0" * 360, b" " * 8192, b"\0" * 7)[(j + case["trailing"]) % 3]
+    url = imgrun.put_on_fs(b, case["fs"], f"c06_{case['seed']}_{case.get('trailing', 0)}")
     try:
         ref = None
         if case["fs"] == "vtrace":
@@ -273,6 +277,8 @@ def body(chk):
         for fs in (["vtrace", "local"] if chk.tier == "quick" else ["vtrace", "local", "file", "memory"]):
             cases.append(dict(level=level, images=images, seed=chk.seed + si, fs=fs, rpcs=[None] + rpcs,
                               typed=[(t, r) for t in ("int64", "int32", "uint16", "intp") for r in (1, 2, max(1, n - 1), n, n + 1, 1024)]))
+    for c in [c for c in cases if c["fs"] == "local"]:
+        cases.append(dict(c, trailing=1 + len(cases) % 3, typed=[]))
     L.tables()
     want = [dict(L.SMALL_LEADER), dict(L.SMALL_LEADER, nmap=0), dict(file="trailer", nlow=0, lens=[])] + \
            [dict(file="volume", nfp=k) for k in (3, 4, 5)]
